@@ -339,6 +339,24 @@ def canonicalise(tree: ast.Module, level=None, relpath: str = None) -> ast.Modul
         stores[n.name] = stores.get(n.name, 0) + 1
     _blocks(fn, stores, loads, level)
   if level >= 3:
+    # C14: `return a if c else b` is `if c: return a` / `return b` (every return statement yields one value)
+    for holder in list(ast.walk(tree)):
+      for fld in ('body', 'orelse', 'finalbody'):
+        blk = getattr(holder, fld, None)
+        if not isinstance(blk, list):
+          continue
+        i = 0
+        while i < len(blk):
+          st = blk[i]
+          if isinstance(st, ast.Return) and isinstance(st.value, ast.IfExp):
+            t_, sw_ = _positive(st.value.test)
+            a_, b_ = (st.value.orelse, st.value.body) if sw_ else (st.value.body, st.value.orelse)
+            r1 = ast.copy_location(ast.Return(value=a_), st)
+            r2 = ast.copy_location(ast.Return(value=b_), st)
+            iff = ast.copy_location(ast.If(test=t_, body=[r1], orelse=[]), st)
+            blk[i:i + 1] = [iff, r2]
+          else:
+            i += 1
     tree = _Polarity().visit(tree)      # tests exposed by the inlining above (t = a not in b; x if t else y)
     tree = _SplitTuples().visit(tree)   # tuple assignments exposed by the inlining above
     ast.fix_missing_locations(tree)
